@@ -252,9 +252,11 @@ fn write_file_contents<'data, A: Arch<Platform = Elf>>(
 
     let mut writable_buckets = split_buffers_by_alignment(&mut section_buffers, layout);
     let groups_and_buffers = split_output_by_group(layout, &mut writable_buckets);
-    groups_and_buffers
+    // If several groups fail, report the error from the first of them rather than from whichever
+    // thread happened to fail first, so that the error doesn't depend on scheduling.
+    let first_error = groups_and_buffers
         .into_par_iter()
-        .try_for_each(|(group, mut buffers)| -> Result {
+        .map(|(group, mut buffers)| -> Result {
             verbose_timing_phase!("Write group");
 
             let mut table_writer = TableWriter::from_layout(
@@ -280,7 +282,11 @@ fn write_file_contents<'data, A: Arch<Platform = Elf>>(
                 .validate_empty(&group.mem_sizes)
                 .with_context(|| format!("validate_empty failed for {group}"))?;
             Ok(())
-        })?;
+        })
+        .find_map_first(Result::err);
+    if let Some(error) = first_error {
+        return Err(error);
+    }
 
     for (output_section_id, _) in layout.output_sections.ids_with_info() {
         let relocations = layout
